@@ -378,6 +378,12 @@ Definition recv_step (fl : flags) (rc : receiver) (q : req) : receiver :=
   | _ => recv_update fl rc1 (q_cp q)
   end.
 
+(* HandleSyncSession when the store write fails (opdb Put/Delete error): the handler returns the error before any
+   reservation is touched.  Today lastSeq has already been overwritten at that point; the repaired receiver (which
+   drops what is not above lastSeq) must leave lastSeq alone, or the retransmission would be dropped as stale. *)
+Definition recv_fail (fl : flags) (rc : receiver) (q : req) : receiver :=
+  if f_stale fl then mkrecv (aset N.eqb (q_srg q) (q_seq q) (rc_last rc)) (rc_store rc) (rc_reg rc) else rc.
+
 Definition recv_run (fl : flags) (rc : receiver) (qs : list req) : receiver := fold_left (recv_step fl) qs rc.
 
 (* entries handed to a handler one by one; a nil entry makes the handler panic (the earlier ones were applied) *)
@@ -388,15 +394,31 @@ Fixpoint somes (l : list (option req)) : list req * bool :=
   | None :: _ => ([], true)
   end.
 
-(* server.go BulkSync (from the backlog) + HandleBulkSyncPage: every entry's checkpoint is stored, whatever its
-   action; lastSeq becomes the sequence of the last entry *)
-Definition recv_bulk_def (fl : flags) (rc : receiver) (srg : N) (entries : list req) : receiver :=
-  let rc1 := fold_left (fun r q => recv_update fl r (q_cp q)) entries rc in
+(* server.go BulkSync (from the backlog) + HandleBulkSyncPage.
+   today (f_bulk): every entry's checkpoint is stored, whatever its action;
+   repaired (fixes/C11_bulk_latest_live.patch): only the latest entry of each session is replayed, and only when it
+   is not a DELETE.  In both, lastSeq becomes the sequence of the last entry of the window. *)
+Definition has_later (k : N * N) (l : list req) : bool := existsb (fun q => keyeqb k (cp_key (q_cp q))) l.
+Fixpoint compact (l : list req) : list checkpoint :=
+  match l with
+  | [] => []
+  | q :: r => if has_later (cp_key (q_cp q)) r then compact r
+              else match q_act q with ADelete => compact r | _ => q_cp q :: compact r end
+  end.
+Definition bulk_cps (fl : flags) (entries : list req) : list checkpoint :=
+  if f_bulk fl then map q_cp entries else compact entries.
+Definition recv_bulk (fl : flags) (rc : receiver) (srg : N) (entries : list req) : receiver :=
+  let rc1 := fold_left (recv_update fl) (bulk_cps fl entries) rc in
   match rev entries with
   | q :: _ => if N.ltb 0 (q_seq q)
               then mkrecv (aset N.eqb srg (q_seq q) (rc_last rc1)) (rc_store rc1) (rc_reg rc1) else rc1
   | [] => rc1
   end.
+(* pages sent: today one per pageSize entries; repaired one per pageSize checkpoints, at least one *)
+Definition bulk_pages (fl : flags) (entries : list req) (pagesz : nat) : nat :=
+  let n := length (bulk_cps fl entries) in
+  let p := ((n + pagesz - 1) / pagesz)%nat in
+  if f_bulk fl then p else Nat.max 1 p.
 
 (* ---------- sender ---------- *)
 Definition sender := list (N * (N * ring)).     (* configured SRG -> (sequence counter, backlog) *)
@@ -419,8 +441,13 @@ Inductive op :=
 | OEvent (s : session) (released : bool)
 | ODeliver (srg : N)                 (* the next request of the SRG not yet delivered, in order *)
 | ORedeliver (srg seq : N)           (* a request emitted earlier, once more *)
+| ODeliverF (srg : N)                (* as ODeliver, but the standby's store write fails: the request is lost *)
+| ORedeliverF (srg seq : N)          (* as ORedeliver, with a failing store write *)
 | OReplay (srg : N) (from to : Z)    (* GetBacklog(srg).Range(from,to) through HandleSyncSession *)
-| OBulk (srg : N).                   (* BulkSync from the backlog through HandleBulkSyncPage *)
+| OBulk (srg : N)                    (* BulkSync from the backlog through HandleBulkSyncPage *)
+| OBulkChurn (srg : N) (k pagesz : nat) (s : session) (released : bool).
+                                     (* the same while the active node keeps working: after every page sent, k more
+                                        lifecycle events (s, released) are handled before the next page is built *)
 
 Record sys := mksys {
   y_sender : sender;
@@ -437,13 +464,39 @@ Definition next_of (y : sys) (srg : N) : nat :=
 Definition live_step (live : list ((N * N) * session)) (s : session) (released : bool) :=
   if released then adel keyeqb (sess_key s) live else aset keyeqb (sess_key s) s live.
 
+Definition event_op (y : sys) (s : session) (released : bool) : sys :=
+  match sender_event (y_sender y) s released with
+  | (sn, Some q) => mksys sn (y_recv y) (y_sent y ++ [q]) (y_next y) (live_step (y_live y) s released) (y_panics y)
+  | (_, None) => y
+  end.
+
+Fixpoint iter_n {A} (n : nat) (f : A -> A) (x : A) : A := match n with O => x | S k => iter_n k f (f x) end.
+
+(* BulkSync: the answer of Range is a VALUE — what the active node does between two pages (the [churn]) cannot change
+   it.  Afterwards the in-order stream resumes behind the sequence the bulk sync ended with. *)
+Definition bulk_op (fl : flags) (churn : sys -> sys) (y : sys) (srg : N) (k pagesz : nat) : sys :=
+  match aget N.eqb srg (y_sender y) with
+  | Some (_, b) =>
+      match oldest_seq b, newest_seq b with
+      | Ok os, Ok ns =>
+          if N.eqb os 0 || N.eqb ns 0 then y else
+          match range fl b (Z.of_N os) (Z.of_N ns) with
+          | Ok l => let (qs, p) := somes l in
+                    if p then mksys (y_sender y) (y_recv y) (y_sent y) (y_next y) (y_live y) (S (y_panics y))
+                    else
+                      let y1 := iter_n (bulk_pages fl qs pagesz * k) churn y in
+                      mksys (y_sender y1) (recv_bulk fl (y_recv y1) srg qs) (y_sent y1)
+                            (aset N.eqb srg (Nat.max (next_of y1 srg) (N.to_nat ns)) (y_next y1)) (y_live y1) (y_panics y1)
+          | _ => mksys (y_sender y) (y_recv y) (y_sent y) (y_next y) (y_live y) (S (y_panics y))
+          end
+      | _, _ => mksys (y_sender y) (y_recv y) (y_sent y) (y_next y) (y_live y) (S (y_panics y))
+      end
+  | None => y
+  end.
+
 Definition sys_step (fl : flags) (y : sys) (o : op) : sys :=
   match o with
-  | OEvent s released =>
-      match sender_event (y_sender y) s released with
-      | (sn, Some q) => mksys sn (y_recv y) (y_sent y ++ [q]) (y_next y) (live_step (y_live y) s released) (y_panics y)
-      | (_, None) => y
-      end
+  | OEvent s released => event_op y s released
   | ODeliver srg =>
       match nth_error (sent_of srg (y_sent y)) (next_of y srg) with
       | Some q => mksys (y_sender y) (recv_step fl (y_recv y) q) (y_sent y)
@@ -453,6 +506,17 @@ Definition sys_step (fl : flags) (y : sys) (o : op) : sys :=
   | ORedeliver srg seq =>
       match find (fun q => N.eqb (q_seq q) seq) (sent_of srg (y_sent y)) with
       | Some q => mksys (y_sender y) (recv_step fl (y_recv y) q) (y_sent y) (y_next y) (y_live y) (y_panics y)
+      | None => y
+      end
+  | ODeliverF srg =>
+      match nth_error (sent_of srg (y_sent y)) (next_of y srg) with
+      | Some q => mksys (y_sender y) (recv_fail fl (y_recv y) q) (y_sent y)
+                        (aset N.eqb srg (S (next_of y srg)) (y_next y)) (y_live y) (y_panics y)
+      | None => y
+      end
+  | ORedeliverF srg seq =>
+      match find (fun q => N.eqb (q_seq q) seq) (sent_of srg (y_sent y)) with
+      | Some q => mksys (y_sender y) (recv_fail fl (y_recv y) q) (y_sent y) (y_next y) (y_live y) (y_panics y)
       | None => y
       end
   | OReplay srg from to =>
@@ -466,24 +530,9 @@ Definition sys_step (fl : flags) (y : sys) (o : op) : sys :=
           end
       | None => y
       end
-  | OBulk srg =>
-      match aget N.eqb srg (y_sender y) with
-      | Some (_, b) =>
-          match oldest_seq b, newest_seq b with
-          | Ok os, Ok ns =>
-              if N.eqb os 0 || N.eqb ns 0 then y else
-              match range fl b (Z.of_N os) (Z.of_N ns) with
-              | Ok l => let (qs, p) := somes l in
-                        if p then mksys (y_sender y) (y_recv y) (y_sent y) (y_next y) (y_live y) (S (y_panics y))
-                        else mksys (y_sender y)
-                              (if f_bulk fl then recv_bulk_def fl (y_recv y) srg qs else recv_run fl (y_recv y) qs)
-                              (y_sent y) (y_next y) (y_live y) (y_panics y)
-              | _ => mksys (y_sender y) (y_recv y) (y_sent y) (y_next y) (y_live y) (S (y_panics y))
-              end
-          | _, _ => mksys (y_sender y) (y_recv y) (y_sent y) (y_next y) (y_live y) (S (y_panics y))
-          end
-      | None => y
-      end
+  | OBulk srg => bulk_op fl (fun y' => y') y srg 0 1
+  | OBulkChurn srg k pagesz s released =>
+      bulk_op fl (fun y' => event_op y' s released) y srg k pagesz
   end.
 
 Definition sys_init (cap : Z) (srgs : list N) (g : registry) : sys :=
@@ -525,6 +574,11 @@ Definition expected_leases (g : registry) (live : list ((N * N) * session)) : li
 (* index of a delegated prefix back to its address (PrefixAllocator.indexToIPNet), for printing *)
 Definition index_to_prefix (d : pdpool) (i : N) : N :=
   ((d_base d + N.shiftl i (128 - d_plen d)) mod (n64 * n64))%N.
+
+(* the caller of Range keeps the answer while the ring goes on being pushed to: (answer as observed afterwards, ring) *)
+Definition range_then_push (fl : flags) (b : ring) (from to : Z) (later : list req) :
+  result (list (option req)) * ring :=
+  let r := range fl b from to in (r, fold_left push later b).
 
 (* ---------- specification-level runs used by the theorems ---------- *)
 (* the active node handles a list of lifecycle events: final sender state and everything emitted *)
